@@ -63,6 +63,28 @@ def judge(chk, pid, rigbin, scenarios, results, **kw):
     return corerig.judge(chk, pid, rigbin, scenarios, results, SPECDIR, "ServerMux_Trace", **kw)
 
 
+def gap_scenario(name, cut_ms, gap_ms, cls, seed):
+    """A real gap without any carrier: the session moves half of each stream,
+    its carrier is cut cut_ms after it was opened, the next one arrives gap_ms
+    later, then the other half follows.  One accepted connection, both streams
+    continue (ServerMux: SessionPersists, OneAcceptPerSession; byte prefixes)."""
+    return {"name": name, "seed": seed, "bound_ms": 240000, "sessions": [
+        {"up": 200000, "down": 200000, "resume_after_ms": cut_ms + gap_ms + 1000, "carriers": [
+            {"label": "", "ip": "192.0.2.7", "pres": "id", "fault": {"kind": "cut", "dir": "up", "cls": "time", "nth": 0, "after_ms": cut_ms}},
+            {"label": "", "ip": "2001:db8::5", "pres": "id", "delay_ms": gap_ms, "gap_class": cls}]}],
+        "origin": {"module": "ServerMux", "steps": [["S_Cut", [1, "bnd"]], ["S_Detach", [1]], ["S_Gap", ["A", cls]], ["S_Open", [2]]]}}
+
+
+def long_gaps(chk, rigbin, scs, out):
+    """Runs next to the main batch (a thread): real time is the only thing that
+    exposes a session layer that gives up inside the retention."""
+    try:
+        results, summary, o, races = corerig.run_rig(rigbin, scs, par=len(scs), bound_ms=240000, timeout=600, tag="gaps")
+        out["results"], out["summary"] = results, summary
+    except Exception as e:
+        out["error"] = e
+
+
 def run(chk, args):
     q = chk.tier == "quick"
     rigbin = vlib.go_build("./cmd/corerig", "corerig", linkflag=True)
@@ -77,6 +99,18 @@ def run(chk, args):
     mc_out = []
     th = threading.Thread(target=model_check, args=(chk, mc_cfgs, mc_out))
     th.start()
+    # real gaps INSIDE the one-minute retention but beyond the session layer's default keep-alive timeout
+    # (30 s): a session that loses its carrier 6 s after it started and gets the next one 55 s later (quick
+    # and thorough), one that loses it after 27 s for 34 s (thorough).  A give-up needs two keep-alive ticks,
+    # i.e. it cannot show before 60 s after the session started - that is the price of this clause.
+    gap_scs = [gap_scenario("c05-gap55", 6000, 55000, "beyondKeepalive", chk.seed)]
+    if not q:
+        gap_scs.append(gap_scenario("c05-gap34", 27000, 34000, "beyondKeepalive", chk.seed))
+        # and one LONGER than the retention: the session's outgoing queue expires, the session must survive
+        gap_scs.append(gap_scenario("c05-gap61", 2000, 61000, "beyondRetention", chk.seed))
+    gap_out = {}
+    gth = threading.Thread(target=long_gaps, args=(chk, rigbin, gap_scs, gap_out))
+    gth.start()
     # 2. behaviours -> scenarios
     num = 60 if q else 400
     scenarios, infos = generate(chk, ["Gen_a.cfg", "Gen_b.cfg", "Gen_c.cfg"], num, 90, "c05")
@@ -84,6 +118,9 @@ def run(chk, args):
     chk.note("%d behaviours of ServerMux_Gen -> scenarios (%d carriers, %d cuts, %d gaps, classes %s)" % (
         len(scenarios), sum(i["carriers"] for i in infos), sum(i["cuts"] for i in infos), sum(i["gaps"] for i in infos), sorted(classes)))
     chk.cov["gaps_shorter_than_retention"] = sum(i["gaps"] for i in infos)
+    chk.cov["gap_classes_in_behaviours"] = sorted(set().union(*[i["gapclasses"] for i in infos]))
+    if set(chk.cov["gap_classes_in_behaviours"]) != {"short", "beyondKeepalive", "beyondRetention"}:
+        chk.fail("vacuous: gap classes generated: %s" % chk.cov["gap_classes_in_behaviours"])
     shapes = {}
     for sc in scenarios:
         if sc.get("id_shape"):
@@ -105,6 +142,16 @@ def run(chk, args):
                       {"orphans": summary["orphans"][:20]})
     # 4. TLC judges the traces
     bad, stalled = judge(chk, "C05", rigbin, scenarios, results)
+    gth.join()
+    if "error" in gap_out:
+        raise gap_out["error"]
+    judge(chk, "C05", rigbin, gap_scs, gap_out["results"], bound_ms=240000)
+    chk.cov["real_gaps_inside_retention"] = {n: {"done": r["done"], "wall_ms": r["wall_ms"]} for n, r in gap_out["results"].items()}
+    chk.note("real gaps inside the retention: %s" % chk.cov["real_gaps_inside_retention"])
+    if not all(r["done"] or r.get("stalled") or any(e["ev"] in ("app.rerr", "app.werr") for e in r["events"]) for r in gap_out["results"].values()):
+        chk.fail("a gap scenario neither completed nor failed visibly")
+    results = dict(results, **gap_out["results"])
+    scenarios = scenarios + gap_scs
     # thorough: the same under the race detector (monitor only) and the 5-carrier plan by simulation
     if not q:
         racebin = vlib.go_build("./cmd/corerig", "corerig-race", linkflag=True, race=True)
